@@ -136,7 +136,10 @@ class WalletProp(BaseProp):
                             node_view(other, other.master.derive_path(list(case["sub"])))
                         del other
                         gc.collect()
-                    ov = node_view(wo, wo.master.derive_path(list(case["sub"])))
+                    sub = list(case["sub"])
+                    form = case.get("path_form")          # the same sub-path handed over as another iterable
+                    arg = {None: sub, "tuple": tuple(sub), "iter": iter(sub), "gen": (i for i in sub), "map": map(int, sub)}[form]
+                    ov = node_view(wo, wo.master.derive_path(arg))
                 except Exception:
                     ov = None
             return {"xpub": xpub, "ob": ov, "full": fv, "or": c_oracles(rec), "err": ov is None}
